@@ -281,7 +281,10 @@ _CMP = {ast.Eq: O.eq, ast.NotEq: O.ne, ast.Gt: O.gt, ast.GtE: O.ge, ast.Lt: O.lt
 
 
 _STR_METHODS = {'replace', 'strip', 'rstrip', 'lstrip', 'upper', 'lower', 'startswith', 'endswith', 'isdigit', 'count',
-                'find', 'split', 'join', 'zfill'}
+                'find', 'split', 'join', 'zfill', 'isalnum', 'isalpha', 'isupper', 'islower', 'isspace', 'isdecimal', 'isnumeric',
+                'isascii', 'isprintable', 'isidentifier', 'istitle', 'rfind', 'index', 'rindex', 'partition', 'rpartition',
+                'rsplit', 'splitlines', 'title', 'capitalize', 'swapcase', 'casefold', 'center', 'ljust', 'rjust',
+                'expandtabs', 'removeprefix', 'removesuffix', 'encode', 'translate'}
 
 
 def model_seq(v):
@@ -291,6 +294,24 @@ def model_seq(v):
     return v
 
 
+class ListRef(object):
+    """environment value of a local that is another name for a list held inside a model object of a rule: the list
+    itself (not a copy), so that what is appended through the local is seen through the model - as in the program"""
+    __slots__ = ('lst',)
+
+    def __init__(self, lst):
+        self.lst = lst
+
+    def __hash__(self):
+        return hash(('listref', id(self.lst)))
+
+    def __eq__(self, o):
+        return isinstance(o, ListRef) and o.lst is self.lst
+
+    def __repr__(self):
+        return 'ListRef(%r)' % (self.lst,)
+
+
 def ev(e, env, funcs=None):
     """evaluate a closed pure expression under `env` (name or access-path -> value).
     Supports arithmetic, comparisons, boolean operators, len(), int(), slicing/indexing of
@@ -298,12 +319,14 @@ def ev(e, env, funcs=None):
     raises NotClosed: the caller must treat that as 'idiom not recognised'."""
     p = path_of(e)
     if p is not None and p in env:
-        return env[p]
+        v0 = env[p]
+        return v0.lst if isinstance(v0, ListRef) else v0
     if isinstance(e, ast.Constant):
         return e.value
     if isinstance(e, ast.Name):
         if e.id in env:
-            return env[e.id]
+            v0 = env[e.id]
+            return v0.lst if isinstance(v0, ListRef) else v0
         raise NotClosed(e.id)
     if isinstance(e, (ast.Tuple, ast.List)):
         return tuple(ev(x, env, funcs) for x in e.elts)
@@ -423,7 +446,10 @@ def ev(e, env, funcs=None):
             return format(ev(e.args[0], env, funcs), ev(e.args[1], env, funcs))
         if isinstance(e.func, ast.Name) and e.func.id == 'next' and len(e.args) == 2 and not e.keywords:
             # first item of a closed sequence (a generator whose items were collected), else the default
-            seq = ev(e.args[0], env, funcs)
+            a0_ = e.args[0]
+            if isinstance(a0_, ast.Call) and isinstance(a0_.func, ast.Name) and a0_.func.id == 'iter' and len(a0_.args) == 1 and not a0_.keywords:
+                a0_ = a0_.args[0]       # next(iter(S), d): a fresh iterator over S
+            seq = model_seq(ev(a0_, env, funcs))
             if isinstance(seq, tuple):
                 return seq[0] if seq else ev(e.args[1], env, funcs)
             if type(seq).__name__ == 'IterState':
@@ -486,16 +512,53 @@ def ev(e, env, funcs=None):
                 else:
                     return tuple(enumerate(args[0], *(args[1:])))
             raise NotClosed(e.func.id)
-        if isinstance(e.func, ast.Name) and e.func.id in ('len', 'int', 'min', 'max', 'str', 'range', 'tuple', 'list', 'sorted', 'sum', 'any', 'all', 'bool', 'abs') \
-                and not e.keywords:
+        if isinstance(e.func, ast.Name) and e.func.id == 'next' and 1 <= len(e.args) <= 2 and not e.keywords \
+                and (isinstance(e.args[0], ast.GeneratorExp) or (isinstance(e.args[0], ast.Call) and isinstance(e.args[0].func, ast.Name)
+                     and e.args[0].func.id == 'iter' and len(e.args[0].args) == 1)):
+            # next(iter(S) [, d]) / next((.. for ..) [, d]) on a fresh iterator: the first item, or the default
+            seq_ = ev(e.args[0] if isinstance(e.args[0], ast.GeneratorExp) else e.args[0].args[0], env, funcs)
+            seq_ = model_seq(seq_)
+            if isinstance(seq_, (tuple, list, str)):
+                if len(seq_):
+                    return seq_[0]
+                if len(e.args) == 2:
+                    return ev(e.args[1], env, funcs)
+            raise NotClosed('next')
+        if isinstance(e.func, ast.Name) and e.func.id == 'isinstance' and len(e.args) == 2 and not e.keywords:
+            # decided for scalar types only: a closed value that is a text / number / None against str, int, float, bool, bytes
+            # (a tuple stands for a list or a tuple here, a model for an object of the program: neither is one of those)
+            SC = {'str': str, 'int': int, 'float': float, 'bool': bool, 'bytes': bytes}
+            tnode = e.args[1]
+            tnames = [t_.id for t_ in tnode.elts if isinstance(t_, ast.Name)] if isinstance(tnode, ast.Tuple) else ([tnode.id] if isinstance(tnode, ast.Name) else [])
+            n_t = len(tnode.elts) if isinstance(tnode, ast.Tuple) else 1
+            if tnames and len(tnames) == n_t and all(t_ in SC for t_ in tnames):
+                v_ = ev(e.args[0], env, funcs)
+                if v_ is None or isinstance(v_, (str, int, float, bool, bytes, tuple, FrozenDict, frozenset)) or getattr(v_, '_sa_model', False):
+                    return isinstance(v_, tuple(SC[t_] for t_ in tnames))
+                raise NotClosed('isinstance')
+        if isinstance(e.func, ast.Name) and e.func.id in ('len', 'int', 'min', 'max', 'str', 'range', 'tuple', 'list', 'sorted', 'sum', 'any', 'all', 'bool', 'abs',
+                                                           'chr', 'ord', 'repr') and e.func.id not in env and not e.keywords:
             args = [ev(a, env, funcs) for a in e.args]
+            if e.func.id == 'repr' and not all(a_ is None or isinstance(a_, (str, int, float, bool, bytes)) for a_ in args):
+                raise NotClosed('repr')
             r_ = {'len': len, 'int': int, 'min': min, 'max': max, 'str': str, 'range': range, 'tuple': tuple, 'list': tuple,
-                  'sorted': lambda x: tuple(sorted(x)), 'sum': sum, 'any': any, 'all': all, 'bool': bool, 'abs': abs}[e.func.id](*args)
+                  'sorted': lambda x: tuple(sorted(x)), 'sum': sum, 'any': any, 'all': all, 'bool': bool, 'abs': abs,
+                  'chr': chr, 'ord': ord, 'repr': repr}[e.func.id](*args)
             return tuple(r_) if isinstance(r_, range) and len(r_) <= 500 else r_
         if isinstance(e.func, ast.Attribute) and e.func.attr == 'format' and is_str(e.func.value):
             args = [ev(a, env, funcs) for a in e.args]
             kw = {k.arg: ev(k.value, env, funcs) for k in e.keywords}
             return e.func.value.value.format(*args, **kw)
+        if isinstance(e.func, ast.Attribute) and e.func.attr == 'format' and isinstance(e.func.value, (ast.BinOp, ast.Name, ast.JoinedStr, ast.IfExp)):
+            # a template that is computed: decided when it evaluates to a text
+            try:
+                tmpl = ev(e.func.value, env, funcs)
+            except NotClosed:
+                tmpl = None
+            if isinstance(tmpl, str):
+                args = [ev(a, env, funcs) for a in e.args]
+                kw = {k.arg: ev(k.value, env, funcs) for k in e.keywords}
+                return tmpl.format(*args, **kw)
         if isinstance(e.func, ast.Attribute) and not e.keywords:
             try:
                 recv_m = ev(e.func.value, env, funcs)
